@@ -416,7 +416,7 @@ theorem PR.whole_clean (p : PR) : p.whole.cleanLit = true := by
   | ok e =>
     cases e <;> simp [PR.whole, PR.cleanLit]
     rename_i v
-    cases h : v.hasUnknown <;> simp [PR.cleanLit, h]
+    cases hi : v.ignInside <;> cases h : v.hasUnknown <;> simp [PR.cleanLit, h]
   | _ => rfl
 
 theorem Sound.whole {γ : Value → Value} [Completion γ] {env : Env} {e : Expr} {p : PR} (h : Sound γ env e p) :
@@ -426,7 +426,9 @@ theorem Sound.whole {γ : Value → Value} [Completion γ] {env : Env} {e : Expr
     cases e' <;> simp only [PR.whole] <;> try exact h
     split
     · trivial
-    · exact h
+    · split
+      · trivial
+      · exact h
   | _ => exact h
 
 /-- a literal or residual that a non-access operator may consume agrees with the original -/
